@@ -646,7 +646,8 @@ void queue_string_values(const vf::opts &o, vf::report &R, uint64_t cases) {
                 else if (Limited && (int)pushed.size() - pops >= 2) { desc += "- "; } // never park a producer here (back-pressure is the history check's business)
                 else {
                     std::string text = message + "#" + std::to_string(i);
-                    if (x < 60) { desc += "push(temporary) "; pushed.push_back(text); (void)q->push(std::string(text)); }
+                    if (x < 52) { desc += "push(temporary) "; pushed.push_back(text); (void)q->push(std::string(text)); }
+                    else if (x < 60) { std::size_t cnt = 40 + (std::size_t)i; char ch = (char)('A' + i % 26); desc += "push(count,char) "; pushed.push_back(std::string(cnt, ch)); (void)q->push(cnt, ch); } // in-place arguments: stored or handed to a waiting pop, the item is std::string(count, ch)
                     else if (x < 70) { desc += "push(moved lvalue) "; pushed.push_back(text); std::string lv = text; (void)q->push(std::move(lv)); }
                     else {
                         desc += "push(lvalue) "; pushed.push_back(message);
